@@ -111,7 +111,7 @@ class C18(Check):
                    'floats are finite and compared with == plus sign']
     ANCHORS = ['rxsci/container/csv.py', 'rxsci/io/file.py', 'rxsci/framing/line.py']
     REQUIRED_TAGS = ['stream', 'file', 'enc=None', 'enc=utf-8', 'multi-chunk-file', 'cols=1', 'cols=8',
-                     'skind=adversarial', 'skind=huge', 'fkind=bits', 'sep=,', 'sep=;', 'sep=|', 'sep=tab', 'sep=multi']
+                     'skind=adversarial', 'skind=huge', 'fkind=bits', 'sep=,', 'sep=;', 'sep=|', 'sep=tab', 'sep=multi', 'pushed-source']
     REQUIRED_OBSERVED = ['fields_compared', 'rows_needing_quote_merge']
 
     def __init__(self):
@@ -181,7 +181,15 @@ class C18(Check):
             if os.path.exists(path):
                 os.unlink(path)
             try:
-                w = subscribe(rx.from_(src).pipe(csv.dump_to_file(path, separator=sep, escapechar=esc, encoding=enc)), Snap())
+                if len(src) % 2:
+                    # pushed source + file read back inside the completion callback (see progs.dump_pushed)
+                    from ..progs import dump_pushed
+                    out.tags.append('pushed-source')
+                    w = dump_pushed(lambda o: o.pipe(csv.dump_to_file(path, separator=sep, escapechar=esc, encoding=enc)), src, path, out, 'csv.dump_to_file')
+                    if out.failures:
+                        return out
+                else:
+                    w = subscribe(rx.from_(src).pipe(csv.dump_to_file(path, separator=sep, escapechar=esc, encoding=enc)), Snap())
             except Exception as e:      # noqa: BLE001
                 w = Snap()
                 w.err = e
